@@ -163,8 +163,16 @@ class Unit:
             pat, rep = mutate
             ctext2, n = re.subn(pat, rep, ctext, count=1)
             if n != 1:
-                raise X.ExtractError('canary pattern did not match: %s' % pat)
-            ctext = ctext2
+                # try the helper cuts
+                for k, t in enumerate(self.also):
+                    t2, n = re.subn(pat, rep, t, count=1)
+                    if n == 1:
+                        self.also[k] = t2
+                        break
+                if n != 1:
+                    raise X.ExtractError('canary pattern did not match: %s' % pat)
+            else:
+                ctext = ctext2
         self.ctext_plain = ctext
         labels = [l.label for l in X.find_loops(ctext)]
         want = sp.lst('loops')
@@ -334,6 +342,13 @@ def run_config(unit, cfgname, workdir, tier='quick', mutate=None, want_trace=Fal
         flags += ' --unwind %s --unwinding-assertions' % unwind
     else:
         pass
+    if cfg.get('unwindset'):
+        ids = {l.label: l.cbmc_id for l in X.find_loops(ctext)}
+        items = ['%s.%d:%s' % (sp.meta.get('cname'), ids[it.split(':')[0]], it.split(':')[1]) for it in cfg['unwindset'].split() if it.split(':')[0] in ids]
+        if items:
+            flags += ' --unwindset ' + ','.join(items)
+    if cfg.get('unwindset_raw'):
+        flags += ' --unwindset ' + cfg['unwindset_raw']
     if extra and not unwind:
         flags += ' --unwind %s --unwinding-assertions' % cfg.get('unwind_extra', '6')
         res.reason = 'code has loops the contract does not know (%s): unwound %s times' % (extra, cfg.get('unwind_extra', '6'))
